@@ -22,59 +22,84 @@ fn child_traces(prop: &str, seed: u64, from: u64, to: u64) -> BTreeMap<u64, Stri
     m
 }
 
+/// One slice of the proof, executed on the main thread of its own process (the mirror
+/// directory and the working directory are per process, see mirror.rs): prints `n bad`.
+pub fn chunk(prop: &str, from: u64, to: u64) -> i32 {
+    let per_seed = 2_u64;
+    let mut bad = 0_u64;
+    let mut n = 0_u64;
+    for s in from..to {
+        let seed = 1_000 + s * 7_919;
+        // (a) twice in this process
+        let mut here = BTreeMap::new();
+        for r in 0..per_seed {
+            let a = generate_and_run(prop, seed, r, false);
+            let b = generate_and_run(prop, seed, r, false);
+            n += 1;
+            if a.out.trace != b.out.trace || a.out.steps_done != b.out.steps_done {
+                bad += 1;
+                eprintln!("MISMATCH in-process {prop} seed={seed} run={r}");
+            }
+            here.insert(r, format!("{:016x} {}", a.out.trace, a.out.steps_done));
+        }
+        // (b) in another process, whole range; (c) in yet another, split differently
+        if s % 8 == 0 {
+            let whole = child_traces(prop, seed, 0, per_seed);
+            let mut split = child_traces(prop, seed, 1, per_seed);
+            split.extend(child_traces(prop, seed, 0, 1));
+            for (r, t) in &here {
+                n += 2;
+                if whole.get(r) != Some(t) {
+                    bad += 1;
+                    eprintln!("MISMATCH cross-process {prop} seed={seed} run={r}: {t} vs {:?}", whole.get(r));
+                }
+                if split.get(r) != Some(t) {
+                    bad += 1;
+                    eprintln!("MISMATCH split-process {prop} seed={seed} run={r}: {t} vs {:?}", split.get(r));
+                }
+            }
+        }
+    }
+    println!("CHUNK {n} {bad}");
+    0
+}
+
 pub fn determinism(seeds: u64) -> i32 {
     let mut mismatches = 0_u64;
     let mut compared = 0_u64;
     // `seeds` VERIF_SEED values per profile, two runs each
-    let per_seed = 2_u64;
+    let exe = std::env::current_exe().unwrap();
     for prop in CLAIMED {
-        let mut handles = Vec::new();
+        let mut children = Vec::new();
         let chunk = seeds.div_ceil(16);
         for w in 0..16_u64 {
-            let prop = prop.to_string();
-            handles.push(std::thread::spawn(move || {
-                crate::obs::install_quiet_panic_hook();
-                let mut bad = 0_u64;
-                let mut n = 0_u64;
-                for s in (w * chunk)..((w + 1) * chunk).min(seeds) {
-                    let seed = 1_000 + s * 7_919;
-                    // (a) twice in this process
-                    let mut here = BTreeMap::new();
-                    for r in 0..per_seed {
-                        let a = generate_and_run(&prop, seed, r, false);
-                        let b = generate_and_run(&prop, seed, r, false);
-                        n += 1;
-                        if a.out.trace != b.out.trace || a.out.steps_done != b.out.steps_done {
-                            bad += 1;
-                            eprintln!("MISMATCH in-process {prop} seed={seed} run={r}");
-                        }
-                        here.insert(r, format!("{:016x} {}", a.out.trace, a.out.steps_done));
-                    }
-                    // (b) in another process, whole range; (c) in yet another, split differently
-                    if s % 8 == 0 {
-                        let whole = child_traces(&prop, seed, 0, per_seed);
-                        let mut split = child_traces(&prop, seed, 1, per_seed);
-                        split.extend(child_traces(&prop, seed, 0, 1));
-                        for (r, t) in &here {
-                            n += 2;
-                            if whole.get(r) != Some(t) {
-                                bad += 1;
-                                eprintln!("MISMATCH cross-process {prop} seed={seed} run={r}: {t} vs {:?}", whole.get(r));
-                            }
-                            if split.get(r) != Some(t) {
-                                bad += 1;
-                                eprintln!("MISMATCH split-process {prop} seed={seed} run={r}: {t} vs {:?}", split.get(r));
-                            }
-                        }
-                    }
-                }
-                (n, bad)
-            }));
+            let (from, to) = (w * chunk, ((w + 1) * chunk).min(seeds));
+            if from >= to {
+                continue;
+            }
+            children.push(
+                Command::new(&exe)
+                    .args(["selftest", "chunk", prop, &from.to_string(), &to.to_string()])
+                    .stdout(std::process::Stdio::piped())
+                    .spawn()
+                    .expect("child"),
+            );
         }
-        for h in handles {
-            let (n, bad) = h.join().unwrap();
-            compared += n;
-            mismatches += bad;
+        for c in children {
+            let o = c.wait_with_output().expect("child");
+            let mut seen = false;
+            for l in String::from_utf8_lossy(&o.stdout).lines() {
+                let p: Vec<&str> = l.split(' ').collect();
+                if p.len() == 3 && p[0] == "CHUNK" {
+                    compared += p[1].parse::<u64>().unwrap_or(0);
+                    mismatches += p[2].parse::<u64>().unwrap_or(0);
+                    seen = true;
+                }
+            }
+            if !seen {
+                eprintln!("MISMATCH a slice of {prop} did not finish");
+                mismatches += 1;
+            }
         }
         println!("determinism {prop}: compared so far {compared}, mismatches {mismatches}");
     }
